@@ -191,6 +191,38 @@ func runVector(v M) M {
 			got["bytes"] = toInts(buf.Bytes())
 		}
 		out["got"] = got
+	case "func":
+		// exported pure functions of the library, named by the vector
+		got := M{}
+		switch v["name"] {
+		case "AnalogParse":
+			ps, err := ipmi.AnalogDataFormat(num(v["format"])).Parser()
+			got["err"] = err != nil
+			if err == nil {
+				got["value"] = int(ps.Parse(byte(num(v["raw"]))))
+			}
+		case "StringDecode":
+			d, err := ipmi.StringEncoding(num(v["encoding"])).Decoder()
+			if err != nil {
+				got["err"] = true
+				break
+			}
+			str, consumed, err := d.Decode(exact(ints(v["bytes"])), num(v["chars"]))
+			got["err"] = err != nil
+			if err == nil {
+				got["chars"] = project(reflect.ValueOf(str))
+				got["consumed"] = consumed
+			}
+		case "EntityInstance":
+			e := ipmi.EntityInstance(num(v["v"]))
+			got["err"] = false
+			got["system"] = e.IsSystemRelative()
+			got["device"] = e.IsDeviceRelative()
+		default:
+			out["harnessError"] = fmt.Sprint("unknown func ", v["name"])
+			return out
+		}
+		out["got"] = got
 	case "aes":
 		// serialise with the library's AES-128-CBC layer (a fresh buffer, then the same buffer reused, as a
 		// connection does), decrypt independently with the standard library, and decode with a fresh layer
